@@ -51,7 +51,7 @@ class C05(Prop):
             return "class:logos-backtracking" if case.text in self._logos else ("word:" + case.text)
         if case.tag == "refsweep":
             return "unit:" + case.expect[1]
-        if case.tag == "tight-number-unit":
+        if case.tag in ("tight-number-unit", "unitexpr-query"):
             return "tight:" + case.text
         return "unitexpr:" + case.text
 
@@ -103,7 +103,7 @@ class C05(Prop):
             from fractions import Fraction
             f = Fraction(case.expect[1])
             want = f"R OK {f.numerator}/{f.denominator} {case.expect[2]}"
-            return None if impl == want else f"`{case.text}` (number glued to the unit word) answered {impl[:80]}, expected {want}"
+            return None if impl == want else f"`{case.text}` (a magnitude in front of the unit expression) answered {impl[:80]}, expected {want}"
         if isinstance(case.expect, tuple) and case.expect[0] == "REF":
             from . import refsweep as R
             return R.verdict(impl, case.expect[2])
@@ -136,6 +136,18 @@ class C05(Prop):
 
     def cases(self, rng, tier):
         out = self._cases(rng, tier)
+        # the same unit expressions behind a magnitude, as a QUERY (`5 1/s`, `5 km/h`): every fourth
+        # one, and every one that starts with a number (`1/…`)
+        qtw = []
+        k = 0
+        for c in out:
+            if c.tag in ("unitexpr", "unitexpr-fixed") and isinstance(c.expect, str):
+                k += 1
+                if k % 4 == 0 or (c.text or "")[:1].isdigit():
+                    c2 = Case("query " + C.hexs("5 " + c.text), "unitexpr-query", "5 " + c.text)
+                    c2.expect = ("TIGHT", "5", c.expect)
+                    qtw.append(c2)
+        out += qtw
         # `**` is the other spelling of `^`, in unit expressions too (`m**2`): every third case
         # that writes a power gets a twin with that spelling and the same expectation
         twins = []
